@@ -501,6 +501,18 @@ theorem subtract_rows_semantics (mode : Mode) (G : Geom) (S : Stripe) (img B : I
       if (subRows mode G S).1 ≤ r ∧ r < (subRows mode G S).2 then osub (cut G S img r c) (B (G.drmin S + r) c)
       else cut G S img r c := d2Fn_subRows mode G S img B r c hr
 
+/-- **gen_worker_state**: in the model a stripe's maps are a function of the stripe's arguments (`nodeVal`, `d2Fn`, `passFn`
+    take the geometry, the stripe, the image and the background map — there is no ambient state).  The code meets this only if
+    what `sigma_filter` reads reaches the worker through its arguments or the pool initializer: the regenerated count of module
+    globals that the parent writes (`filter_mc_sharemem`, `filter_image`) and the worker code reads (`sigma_filter`, `_sf2`)
+    without the initializer setting them from `initargs` is zero, and `initargs` matches the initializer's parameters.  A global
+    that is merely inherited exists in the workers only under the `fork` start method (seeded C06-13: BSCALE silently dropped
+    under `spawn` / `forkserver`). -/
+theorem gen_worker_state : (wsLeaks 0 : Int) = 0 ∧ (wsInitParams 0 : Int) = (wsInitArgs 0 : Int) := by
+  constructor
+  · simp only [wsLeaks] <;> gen_arith
+  · simp only [wsInitParams, wsInitArgs] <;> gen_arith
+
 /-- non-vacuity: on a concrete geometry the regenerated bounds evaluate to the expected numbers -/
 example : (boxRMin 10 3 8 6 12 20 : Int) = 6 ∧ (boxRMax 10 3 8 6 12 20 : Int) = 12 ∧
     (boxCMin 10 3 8 6 12 20 : Int) = 0 ∧ (boxCMax 10 3 8 6 12 20 : Int) = 6 ∧
